@@ -764,10 +764,121 @@ let run_c19 c =
       done)
     [ ("c", if pairing then (48, 96, 32) else (32, 32, 32)); ("u", if pairing then (96, 192, 32) else (64, 64, 32)) ]
 
+(* ---------------- Sonic (trait-level flow: keys, commitments, single-point openings and their mutations) ---------------- *)
+let run_pc_sonic c =
+  let fo = fo () in
+  let d = int1 c "max_degree" in
+  let beta = f_of_str (str1 c "beta") and g = f_of_str (str1 c "g")
+  and gamma = f_of_str (str1 c "gamma") and h = f_of_str (str1 c "h") in
+  let su = KZG10.setup fo (nat_of_int d) true beta g gamma h in
+  obs1 "setup" "S" (class_of su);
+  match su with
+  | Result.Ok up ->
+    let sd = int1 c "supported_degree" and sh = int1 c "supported_hiding" in
+    let bounds = match str1 c "bounds" with
+      | "none" -> None | "empty" -> Some []
+      | _ -> Some (List.map (fun x -> nat_of_int (int_of_string x)) (get c "bounds")) in
+    let tr = Sonic.strim fo up (nat_of_int sd) (nat_of_int sh) bounds in
+    obs1 "trim" "S" (class_of tr);
+    (match tr with
+     | Result.Ok (ck, vk) ->
+       let n = int1 c "n" in
+       let lps = Array.init n (fun i ->
+           let k x = Printf.sprintf "%s.%d" x i in
+           { Marlin.lp_label = nlabel (int1 c (k "label")); lp_poly = fs_of c (k "poly");
+             lp_bound = opt_nat_tok (str1 c (k "bound")); lp_hiding = opt_nat_tok (str1 c (k "hiding")) }) in
+       let rng = if str1 c "commit_rng" = "some" then Some (fs_of c "ctape") else None in
+       let cm = Sonic.s_commit_all fo ck (Array.to_list lps) rng in
+       obs1 "commit" "S" (class_of cm);
+       (match cm with
+        | Result.Ok (cs, draws) ->
+          obs1 "commit_draws" "N" (string_of_int (int_of_nat draws));
+          let cs = Array.of_list cs in
+          Array.iteri (fun i (cv, r) ->
+              obs1 (Printf.sprintf "c.%d" i) "G1" (f_to_str cv);
+              obs (Printf.sprintf "rand.%d" i) "F" (dash (fs_to r))) cs;
+          let npts = int1 c "npts" in
+          let pts = Array.init npts (fun j -> f_of_str (str1 c (Printf.sprintf "pt.%d" j))) in
+          let nops = int1 c "nops" in
+          let recs = Array.make nops None in
+          for t = 0 to nops - 1 do
+            let k x = Printf.sprintf "%s.%d" x t in
+            match get c (k "op") with
+            | "single" :: pj :: sel ->
+              let chal = fs_of c (k "chal") and vchal = fs_of c (k "vchal") in
+              let pj = int_of_string pj and sel = List.map int_of_string sel in
+              let z = pts.(pj) in
+              let values = List.map (fun i -> Poly.eval fo lps.(i).Marlin.lp_poly z) sel in
+              obs (k "evals") "F" (fs_to values);
+              let items = List.map (fun i -> (lps.(i), snd cs.(i))) sel in
+              let r = Sonic.s_open fo ck items z chal in
+              obs1 (k "open") "S" (class_of r);
+              (match r with
+               | Result.Ok (pf, rest) ->
+                 obs1 (k "nchal") "N" (string_of_int (List.length chal - List.length rest));
+                 obs1 (Printf.sprintf "pf.%d.w" t) "G1" (f_to_str pf.KZG10.pf_w);
+                 obs1 (Printf.sprintf "pf.%d.rv" t) "F" (f_opt_to_str pf.KZG10.pf_random_v);
+                 let cms = List.map (fun i -> (fst cs.(i), lps.(i).Marlin.lp_bound)) sel in
+                 (match Sonic.s_check fo vk cms z values pf vchal with
+                  | Result.Ok (b, vrest) ->
+                    obs1 (k "check") "S" (if b then "accept" else "reject");
+                    obs1 (k "nvchal") "N" (string_of_int (List.length vchal - List.length vrest))
+                  | _ -> obs1 (k "check") "S" "refused");
+                 recs.(t) <- Some (pj, sel, values, pf)
+               | _ -> ())
+            | _ -> ()
+          done;
+          List.iter (fun (m, mv) ->
+              let name = Printf.sprintf "mut.%d" m in
+              let t = int_of_string (List.nth mv 0) and kind = List.nth mv 1 in
+              let args = List.tl (List.tl mv) in
+              let arg i = List.nth args i in
+              if t < nops && has c (Printf.sprintf "mchal.%d" m) then begin
+                let mchal = fs_of c (Printf.sprintf "mchal.%d" m) in
+                let cms = Array.init n (fun i -> (fst cs.(i), lps.(i).Marlin.lp_bound)) in
+                match recs.(t) with
+                | Some (pj, sel, values, pf) ->
+                  let pj = ref pj and sel = ref sel and values = ref values and pf = ref pf and ok = ref true in
+                  (match kind with
+                   | "value" -> let k = int_of_string (arg 0) in
+                     if k < List.length !values then values := List.mapi (fun i v -> if i = k then fo.Field.fadd v (f_of_str (arg 1)) else v) !values else ok := false
+                   | "point" -> pj := int_of_string (arg 0)
+                   | "comm_swap" -> let i = int_of_string (arg 0) and j = int_of_string (arg 1) in cms.(i) <- (fst cs.(j), snd cms.(i))
+                   | "proof_from" -> (match (try recs.(int_of_string (arg 0)) with _ -> None) with
+                       | Some (_, _, _, p2) -> pf := p2 | _ -> ok := false)
+                   | "sponge_pre" -> ()
+                   | "drop_poly" -> let k = int_of_string (arg 0) in
+                     if k < List.length !sel then begin
+                       sel := List.filteri (fun i _ -> i <> k) !sel; values := List.filteri (fun i _ -> i <> k) !values end else ok := false
+                   | "comm_mut" ->
+                     let i = int_of_string (arg 0) in
+                     let (cv, b) = cms.(i) in
+                     (match arg 1 with
+                      | "relabel_bound" when b <> None -> cms.(i) <- (cv, Some (nat_of_int (int_of_string (arg 2))))
+                      | "drop_bound" when b <> None -> cms.(i) <- (cv, None)
+                      | "add_bound" when b = None -> cms.(i) <- (cv, Some (nat_of_int (int_of_string (arg 2))))
+                      | _ -> ok := false)
+                   | "proof_mut" ->
+                     (match arg 0 with
+                      | "w_add" -> pf := { !pf with KZG10.pf_w = fo.Field.fadd !pf.KZG10.pf_w (f_of_str (arg 1)) }
+                      | "rv" -> pf := { !pf with KZG10.pf_random_v = (if arg 1 = "none" then None else Some (f_of_str (arg 1))) }
+                      | _ -> ok := false)
+                   | _ -> ok := false);
+                  if !ok then
+                    obs1 name "S" (decision (match Sonic.s_check fo vk (List.map (fun i -> cms.(i)) !sel) pts.(!pj) !values !pf mchal with
+                        | Result.Ok (b, _) -> Result.Ok b | Result.Err e -> Result.Err e | Result.Panic -> Result.Panic))
+                | None -> ()
+              end)
+            (indexed c "mut")
+        | _ -> ())
+     | _ -> ())
+  | _ -> ()
+
 let run_pc c =
   if has c "c19" then run_c19 c else begin
   (match str1 c "scheme" with
    | "marlin" when has c "beta" -> run_pc_marlin c
+   | "sonic" when has c "beta" -> run_pc_sonic c
    | _ -> ());
   if has c "c12" then run_c12 c end
 
